@@ -67,22 +67,29 @@ def gen_group(rng, st, depth, names: list) -> dict:
         n = max(n, 1)
     parts = []
     for _ in range(n):
-        if model != 'all' and st['nest'] < 2 and rng.random() < 0.2:
+        if model != 'all' and st['nest'] < 2 and rng.random() < 0.25:
             sub = gen_group(rng, dict(st, top=False, nest=st['nest'] + 1), depth, names)
             if sub['model'] == 'all':
                 sub['model'] = 'sequence'
             sub['occurs'] = rng.choice([(1, 1), (0, 1), (1, 2), (0, None)])
-            if rng.random() < 0.5:
+            if rng.random() < 0.6:
                 # a group that repeats many times: the same names come back once per occurrence of the GROUP (not
                 # through the maxOccurs of an element), so the encoders of the collapsing conventions have to hand
                 # a run of same-named values back to the model one group occurrence at a time (models.py:899-960)
                 sub['occurs'] = rng.choice([(1, 5), (1, None), (2, None), (0, None), (1, 4), (3, 6)])
                 sub['repeat'] = True
                 els = [q for q in sub['parts'] if 'el' in q]
-                if sub['model'] == 'sequence' and els and rng.random() < 0.7:
+                if els and rng.random() < 0.8:
+                    sub['model'] = 'sequence'
                     els[0]['occurs'] = (1, 1)           # a single-occurrence head and optional followers
                     for q in els[1:]:
                         q['occurs'] = rng.choice([(0, 1), (0, 1), (0, 2)])
+                    if len(els) == 1 and rng.random() < 0.8:
+                        st['ctr'][0] += 1
+                        q = {'el': rng.choice(['a', 'b', 'c', 'd', 'e', 'item', 'p']) + str(st['ctr'][0]),
+                             'type': gen_type(rng, st, 0), 'occurs': (0, 1)}
+                        names.append(q)
+                        sub['parts'].append(q)
             parts.append(sub)
             continue
         # element particle; sometimes reuse a name already used in this content model (same type,
@@ -339,9 +346,12 @@ class InstGen:
         rng = self.rng
         lo, hi = g['occurs']
         n = self.count(lo, hi, depth, 4 if nested else 2)
+        if g.get('repeat') and n < 3 and self.budget > 0 and depth <= 5 and rng.random() < 0.5:
+            n = min(rng.randint(3, 5), hi if hi is not None else 5)
+            n = max(n, lo)
         # many occurrences of a nested group: often all of them without the optional members, which gives a run
         # of >= 3 same-named siblings, one per occurrence of the group
-        lean = nested and n >= 3 and rng.random() < 0.6
+        lean = nested and n >= 3 and rng.random() < 0.75
         if nested and n >= 3:
             self.stats['group-occurrences>=3'] = self.stats.get('group-occurrences>=3', 0) + 1
             if lean:
